@@ -120,7 +120,13 @@ impl Prop for C17 {
                 13..=14 => COp::Get { m, coll, nth: rng.below(12) as u32 },
                 15..=16 => COp::Find { m, coll, arg: rng.below(30) as u32 },
                 17 => COp::BuilderNew { m, sig: rng.below(6) as u32 },
-                18 => COp::Burn { n: *rng.pick(&[1u32, 10, 70000]) },
+                18 => {
+                    if n_modules > 1 && rng.bool() {
+                        COp::Foreign { from: m, to: (m + 1) % n_modules, coll, nth: rng.below(12) as u32 }
+                    } else {
+                        COp::Burn { n: *rng.pick(&[1u32, 10, 70000]) }
+                    }
+                }
                 _ => COp::Iter { m, coll },
             });
         }
@@ -199,7 +205,7 @@ impl Prop for C17 {
 
     fn rule(&self) -> String {
         format!(
-            "first {} cases: ALL sequences of length 1..{} over a 9-operation alphabet on types/functions (exhaustive for that bound); then seeded histories of 1-60 operations (add / delete incl. through dead ids / get through dead ids / finders / FunctionBuilder::new / arena burn) over 11 collections of 1-3 modules, invariants evaluated after every step; \
+            "first {} cases: ALL sequences of length 1..{} over a 9-operation alphabet on types/functions (exhaustive for that bound); then seeded histories of 1-60 operations (add / delete incl. through dead ids / get through dead ids / ids of another module / finders incl. shared names / FunctionBuilder::new / arena burn) over 11 collections of 1-3 modules, invariants evaluated after every step; \
              non-trivial = the history contains at least one add and one delete/finder; distinct = distinct operation sequences (model states reached are counted separately as distinct_model_states)",
             exhaustive_count(),
             EXHAUSTIVE_MAX_LEN
